@@ -16,10 +16,13 @@ VARIANTS = {
     "sqlite": ("sqlalchemy.dialects.sqlite.pysqlite.SQLiteDialect_pysqlite", {}, {}),
     "sqlite-numeric": ("sqlalchemy.dialects.sqlite.pysqlite._SQLiteDialect_pysqlite_numeric", {}, {}),
     "postgresql": ("sqlalchemy.dialects.postgresql.psycopg2.PGDialect_psycopg2", {}, {}),
+    "postgresql-numeric": ("sqlalchemy.dialects.postgresql.psycopg2.PGDialect_psycopg2", {"paramstyle": "numeric"}, {}),
+    "sqlite-numeric_dollar": ("sqlalchemy.dialects.sqlite.pysqlite.SQLiteDialect_pysqlite", {"paramstyle": "numeric_dollar"}, {}),
+    "mssql-numeric": ("sqlalchemy.dialects.mssql.pyodbc.MSDialect_pyodbc", {"paramstyle": "numeric"}, {}),
     "postgresql-asyncpg": ("sqlalchemy.dialects.postgresql.asyncpg.PGDialect_asyncpg", {}, {}),
     "postgresql-pg8000": ("sqlalchemy.dialects.postgresql.pg8000.PGDialect_pg8000", {}, {}),
     "postgresql-psycopg": ("sqlalchemy.dialects.postgresql.psycopg.PGDialect_psycopg", {}, {}),
-    "mysql": ("sqlalchemy.dialects.mysql.mysqldb.MySQLDialect_mysqldb", {}, {"server_version_info": (8, 0, 30)}),
+    "mysql": ("sqlalchemy.dialects.mysql.mysqldb.MySQLDialect_mysqldb", {}, {"server_version_info": (8, 0, 30), "supports_for_update_of": True}),
     "mysql-5": ("sqlalchemy.dialects.mysql.pymysql.MySQLDialect_pymysql", {}, {"server_version_info": (5, 6, 0)}),
     "mysql-connector": ("sqlalchemy.dialects.mysql.mysqlconnector.MySQLDialect_mysqlconnector", {}, {}),
     "mariadb": ("sqlalchemy.dialects.mysql.mariadb.MariaDBDialect", {}, {"server_version_info": (10, 6, 0)}),
@@ -41,7 +44,7 @@ COLS = {
     "t1": [("id", "int"), ("x", "int"), ("s", "str"), ("d", "dt"), ("b", "bool"), ("n", "num"), ("j", "json")],
     "t2": [("id", "int"), ("t1_id", "int"), ("y", "int"), ("name", "str")],
     "t3": [("id", "int"), ("z", "int"), ("w", "str")],
-    "t4": [("id", "int"), ("select", "int"), ("Mixed Case", "str"), ("with space", "int")],
+    "t4": [("id", "int"), ("select", "int"), ("Mixed Case", "str"), ("with space", "int"), ("a.b", "int"), ("amount (usd)", "int")],
 }
 IDENTS = ["", "a", "x1", "select", "Mixed", "with space", "q%q", 'dq"dq', "ünï", "a" * 70, "1abc", "_u", "tbl.col", "]b[", "`bt`"]
 
@@ -324,7 +327,7 @@ def g_dml(rng, d):
                                 rng.choice([None, ["id"], ["cons"]]), rng.choice([None, g_expr(rng, [t], 1, "bool")]),
                                 rng.choice(["excluded", "lit", "empty", "unknown"])]
         elif oc < 0.35:
-            r["on_duplicate"] = rng.choice(["kw", "inserted", "list", "empty", "unknown"])
+            r["on_duplicate"] = rng.choice(["kw", "inserted", "list", "empty", "unknown", "list_unknown", "forupdate"])
         if rng.random() < 0.08:
             r["prefix"] = rng.choice(["OR REPLACE", "IGNORE"])
         return ["insert", r]
@@ -477,13 +480,16 @@ def g_nested_upsert(rng):
     ins = {"table": t, "returning": rng.choice([["cols"], ["star"], None]), "cte": None, "inline": False,
            "values": {c[0]: _lit(rng, c[1]) for c in rng.sample(COLS[t], rng.randint(1, 2))}}
     if fam == "mysql":
-        ins["on_duplicate"] = rng.choice(["unknown", "unknown", "kw", "inserted"])
+        ins["on_duplicate"] = rng.choice(["unknown", "unknown", "kw", "inserted", "list_unknown", "list_unknown", "list", "forupdate"])
     else:
         ins["on_conflict"] = [fam, rng.choice(["update", "update", "nothing"]), rng.choice([None, ["id"]]), None,
                               rng.choice(["unknown", "unknown", "excluded", "lit"])]
     inner = ["insert", ins]
     how = rng.random()
-    if how < 0.5:
+    dvs = [k for k in VKEYS if FAMILY(k) == fam or (fam == "mysql" and FAMILY(k) == "mariadb")]
+    if how < 0.25:
+        return inner, rng.choice(dvs)  # the upsert itself is the statement
+    if how < 0.6:
         src = ["select", {"cols": [["lit", 1]] if ins["returning"] is None else [_col(rng, [t])], "from": [["t", t]],
                           "ctes": [[rng.choice(["up", "Up Sert"]), inner, "", ins["returning"] is not None and rng.random() < 0.7]]}]
     else:
@@ -497,8 +503,7 @@ def g_nested_upsert(rng):
         else:
             d.update(values={COLS[o][0][0]: ["lit", 1]}, inline=False)
         src = [kind, d]
-    dv = rng.choice([k for k in VKEYS if FAMILY(k) == fam or (fam == "mysql" and FAMILY(k) == "mariadb")])
-    return src, dv
+    return src, rng.choice(dvs)
 
 
 def g_dml_labelref(rng):
@@ -523,9 +528,30 @@ def g_dml_labelref(rng):
     return [kind, d]
 
 
+def g_executemany_insert(rng):
+    """INSERT compiled the way Connection.execute(stmt, [list of dicts]) compiles it (for_executemany: insertmanyvalues), with
+    column_keys, mostly on the positional / numeric paramstyle variants, on tables whose column names need bind-name escaping"""
+    t = rng.choice(["t4", "t4", "t1", "t3"])
+    cs = COLS[t]
+    keys = [c[0] for c in rng.sample(cs, rng.randint(1, len(cs)))]
+    ins = {"table": t, "returning": rng.choice([None, ["cols"], ["cols"], ["star"]]), "cte": None, "inline": rng.random() < 0.15}
+    if rng.random() < 0.3:
+        ins["values"] = {k: ["bp", k, None, "required"] for k in keys[:2]}
+    dv = rng.choice([k for k in VKEYS if "numeric" in k or "asyncpg" in k] * 3 + VKEYS)
+    opts = {"for_executemany": True, "column_keys": keys}
+    if rng.random() < 0.2:
+        opts["render_postcompile"] = True
+    return ["insert", ins], dv, opts
+
+
 def gen(rng, n):
     cases = []
     for i in range(n):
+        r = rng.random()
+        if r < 0.03:
+            src, dv, opts = g_executemany_insert(rng)
+            cases.append({"in": [9, i], "kind": "fuzz", "model": False, "src": src, "dv": dv, "opts": opts})
+            continue
         r = rng.random()
         if r < 0.035:
             src, dv = g_nested_upsert(rng)
@@ -590,7 +616,8 @@ class B:
                            sa.Column("y", sa.Integer), sa.Column("name", sa.String(20))),
             "t3": sa.Table("t3", m, sa.Column("id", sa.Integer, primary_key=True), sa.Column("z", sa.Integer), sa.Column("w", sa.Text), schema="sch"),
             "t4": sa.Table("t4", m, sa.Column("id", sa.Integer, primary_key=True), sa.Column("select", sa.Integer),
-                           sa.Column("Mixed Case", sa.String), sa.Column("with space", sa.Integer)),
+                           sa.Column("Mixed Case", sa.String), sa.Column("with space", sa.Integer), sa.Column("a.b", sa.Integer),
+                           sa.Column("amount (usd)", sa.Integer)),
         }
         self.F = {}
 
@@ -996,6 +1023,11 @@ class B:
                     st = st.on_duplicate_key_update([(c1.name, 5), (list(t.c)[0].name, sa.func.now())])
                 elif od == "unknown":
                     st = st.on_duplicate_key_update({c1.name: 5, "legacy_col": 7})
+                elif od == "list_unknown":
+                    st = st.on_duplicate_key_update([("legacy_col", 7), (c1.name, 5)])
+                elif od == "forupdate":
+                    o = self.T["t2" if t.name != "t2" else "t1"]
+                    st = st.on_duplicate_key_update({c1.name: sa.select(list(o.c)[0]).where(list(o.c)[0] == 1).with_for_update(of=o).scalar_subquery()})
                 else:
                     st = st.on_duplicate_key_update({})
             if d.get("prefix"):
@@ -1238,6 +1270,8 @@ def _compile(st, d, opts):
             kw["render_schema_translate"] = True
     if opts.get("for_executemany") and getattr(st, "is_dml", False):
         kw["for_executemany"] = True
+    if opts.get("column_keys") is not None and getattr(st, "is_dml", False):
+        kw["column_keys"] = list(opts["column_keys"])
     c = st.compile(dialect=d, **kw)
     s = str(c)
     if opts.get("construct_params") and hasattr(c, "construct_params"):
@@ -1443,6 +1477,12 @@ def _m_sqlite_where_str(c, w):
             and any(isinstance(x[3].get("sqlite_where"), str) for x in _indexes(c)))
 
 
+def _m_mysql_forupdate_schema(c, w):
+    g = _sig(w)
+    return (g["exc"] == "TypeError" and "use_schema" in g["msg"] + w and FAMILY(c["dv"]) in ("mysql", "mariadb")
+            and _has(c["src"], lambda x: isinstance(x, dict) and x.get("on_duplicate") == "forupdate"))
+
+
 def _is_multitable_dml(x):
     return isinstance(x, list) and len(x) == 2 and x[0] in ("update", "delete") and isinstance(x[1], dict) and x[1].get("from")
 
@@ -1492,6 +1532,7 @@ MATCHERS = [
     ("C22-mysql-index-length-dict-expression-attributeerror", _m_mysql_ixlen),
     ("C22-mssql-multitable-dml-in-cte-typeerror", _m_mssql_multitable_cte),
     ("C22-sqlite-where-string-attributeerror", _m_sqlite_where_str),
+    ("C22-mysql-for-update-of-use-schema-typeerror", _m_mysql_forupdate_schema),
     ("C22-mysql-on-duplicate-nested-warning-attributeerror", _m_mysql_odk_nested),
     ("C22-mysql-integer-table-option-typeerror", _m_mysql_int_option),
 ]
